@@ -59,6 +59,8 @@ JudgeOrigin(e) ==
   \cup If(e.fast # "ok", {"origin-fastpath"})
   \cup If(e.slow # "ok", {"origin-slowpath"})
   \cup If(e.scanlen # e.n, {"origin-scan-len"})
+  \* two records of one stream, both scanned before either is decoded: each keeps its own residues
+  \cup If(~e.pair_fast, {"origin-stream-fastpath"}) \cup If(~e.pair_slow, {"origin-stream-slowpath"})
 
 (******************************** FASTA ***********************************)
 WrapLines(n, w) == [j \in 1..((n + w - 1) \div w) |-> IF j * w <= n THEN w ELSE n - (j - 1) * w]
@@ -68,6 +70,7 @@ JudgeFasta(e) ==
   If(e.wpanic # "" \/ e.rpanic # "", {"fasta-panic"})
   \cup If(e.rerr # "", {"fasta-rejected"})
   \cup If(Len(e.read) # Len(e.written), {"fasta-count"})
+  \cup If(e.splitdiff # -1, {"fasta-split-read"})   \* reading must not depend on where the reader's buffer ends
   \cup UNION {If(j <= Len(e.read) /\ e.read[j].desc # e.written[j].desc, {"fasta-desc"})
               \cup If(j <= Len(e.read) /\ e.read[j].res # e.written[j].res, {"fasta-residues"})
               \cup If(j > Len(e.linelens) \/ (j <= Len(e.linelens) /\ e.linelens[j] # (IF Len(e.written[j].res) = 0 THEN <<0>> ELSE WrapLines(Len(e.written[j].res), 70))), {"fasta-wrap"})
